@@ -8,7 +8,7 @@ INFO = {
             "length 4 (3 for long keys) + ramps; ProcessRotateLeft: every amount -64..64 (+over-wide extras) x every group 1..8 x "
             "0..2 groups of pattern bytes and every non-multiple length; ByteSwapped/BitsSwapped over sizes 1..16, integers, "
             "structs, and the unsized (streaming) path; every transform family again placed behind 0..8 header bytes (Struct member, stream entry points at an offset, consecutive Prefixed regions, Array of FixedSized regions); Compressed x 4 codecs x levels x data. Each case: build == T(inner bytes), "
-            "parse sees T^-1(stream), parse(build(v)) == v. non-trivial = non-empty data with a transform that is not the identity",
+            "parse sees T^-1(stream), parse(build(v)) == v; codec levels {None,0,1,5,9}. non-trivial = non-empty data with a transform that is not the identity",
     "bounds": {"quick": {"data_len": 4}, "thorough": {"data_len": 5}},
     "trusted_base": ["xor/rotate/reverse written with big integers in this module", "zlib, gzip, bz2, lzma stdlib modules define the codecs"],
     "assumptions": ["gzip output embeds a timestamp: byte equality of gzip output is not demanded, only decompress(build(v)) == v"],
@@ -455,7 +455,7 @@ def run_codec(enc, tier, r):
     import construct as C
     lib = CODECS[enc]
     datas = sigma(3 if enc in ("lzma", "bzip2") or tier == "quick" else 4) + [bytes(n) for n in range(0, 65, 4)] + [bytes(i % 251 for i in range(300))]
-    for level in (None, 1, 9):
+    for level in (None, 0, 1, 5, 9):
         d = C.Compressed(C.GreedyBytes, enc, level=level)
         p = C.Prefixed(C.VarInt, C.Compressed(C.GreedyBytes, enc, level=level))
         st = C.Compressed(C.Struct("a" / C.Byte, "rest" / C.GreedyBytes), enc, level=level)
@@ -464,13 +464,24 @@ def run_codec(enc, tier, r):
             case = {"t": "codec", "encoding": enc, "level": level, "data": data}
             built = tryex(lambda: d.build(data))
             r.case(nontrivial=bool(data), outcome="ok", transitions=4, validated=4)
+            codec = tryex(lambda: lib.compress(data) if (level is None or enc == "lzma") else lib.compress(data, level))
+            if codec[0] != "ok":
+                # the codec itself refuses the level (bzip2 has no level 0): build must not invent an output
+                if built[0] == "ok":
+                    r.violation("C15/codec/%s/build-accepts-level-the-codec-refuses" % enc, case, "%s.compress(data, %r) raises %r, build returned %d bytes" % (enc, level, codec, len(built[1])))
+                continue
             if built[0] != "ok":
                 r.violation("C15/codec/%s/build-raised" % enc, case, repr(built)); continue
             dec = tryex(lambda: lib.decompress(built[1]))
             if dec != ("ok", data):
                 r.violation("C15/codec/%s/build-not-codec-output" % enc, case, "%s.decompress(build(v)) = %r, v = %r" % (enc, dec, data)); continue
-            if enc != "gzip":
-                want = lib.compress(data) if (level is None or enc == "lzma") else lib.compress(data, level)
+            if enc == "gzip":
+                # the gzip header carries a timestamp (bytes 4..7); everything else is a function of data and level
+                mask = lambda b: b[:4] + bytes(4) + b[8:]
+                if mask(built[1]) != mask(codec[1]):
+                    r.violation("C15/codec/%s/build-differs" % enc, case, "build != %s.compress(data, level=%r) (timestamp ignored)" % (enc, level))
+            else:
+                want = codec[1]
                 if built[1] != want:
                     r.violation("C15/codec/%s/build-differs" % enc, case, "build != %s.compress(data, level=%r)" % (enc, level))
             ext = lib.compress(data)
@@ -508,7 +519,7 @@ def run_codec(enc, tier, r):
             got2 = tryex(lambda: (lambda o: (bytes(o.z), o.t))(p.parse(msg)))
             if got2 != ("ok", (want[1], 7)):
                 r.violation("C15/codec/%s/multi-member-differs" % enc, dict(case, prefixed=True), "inside Prefixed: %r" % (got2[:1],))
-    r.sample({"encoding": enc, "levels": [None, 1, 9], "data_strings": len(datas), "multi_member_streams": 27})
+    r.sample({"encoding": enc, "levels": [None, 0, 1, 5, 9], "data_strings": len(datas), "multi_member_streams": 27})
 
 
 def replay(case):
